@@ -103,6 +103,9 @@ class ListGeomArray(Sort):
             levels.append(cur)
             counts.append(cur[-1])
         values = [gen_float(rng, self.finite) for _ in range(levels[-1][-1])]
+        coord_dtype = rng.choice([None] * 6 + ['int32', 'int16', 'int64', 'float32'])
+        if coord_dtype and coord_dtype.startswith('int'):
+            values = [float(rng.choice([0, 1, -1, 2, 3, -2, 4])).hex() for _ in values]
         if self.cls in ('PolygonArray', 'MultiPolygonArray') and rng.random() < 0.7:
             # valid polygons: closed rectangular rings, the first ring of a polygon is the shell, the others lie inside it
             ring_off = [0]
@@ -141,6 +144,11 @@ class ListGeomArray(Sort):
         bufs.append({'k': 'array', 'dtype': 'float64', 'shape': [len(values)], 'data': values})
         rep = {'k': 'record', 'cls': 'ListArray', 'fields': {'offset': {'k': 'int', 'v': off}, 'length': {'k': 'int', 'v': ln},
                                                             'bufs': {'k': 'tuple', 'items': bufs}}}
+        # the real array gets another coordinate subtype when every coordinate is exactly representable in it (the
+        # contract is evaluated over the same real numbers; only the native side sees the subtype)
+        fl = [float.fromhex(x) for x in values if x not in ('nan', 'inf', '-inf')]
+        if coord_dtype and len(fl) == len(values) and (coord_dtype == 'float32' or all(v_.is_integer() and abs(v_) < 2 ** 14 for v_ in fl)):
+            rep['fields']['coord_dtype'] = {'k': 'other', 'v': coord_dtype}
         return {'k': 'record', 'cls': self.cls, 'fields': {'listarray': rep, 'data': rep}}
 
 
